@@ -76,6 +76,11 @@ impl FeatureSpec {
         let sc = |o: &mut String, ind: &str, s: &ScenarioSpec| {
             o.push_str(&tags_line(ind, &s.tags));
             o.push_str(&format!("{ind}Scenario: {}\n", s.name));
+            if s.steps.is_empty() {
+                // placeholder, removed again after parsing (an empty scenario
+                // confuses the `gherkin` grammar when something follows it)
+                o.push_str(&format!("{ind}  Given PLACEHOLDER\n"));
+            }
             for (i, k) in s.steps.iter().enumerate() {
                 o.push_str(&format!(
                     "{ind}  Given {} step {} {k}\n",
@@ -103,6 +108,9 @@ impl FeatureSpec {
             for s in &r.scenarios {
                 sc(&mut o, "    ", s);
             }
+            if r.scenarios.is_empty() {
+                o.push_str("    Scenario: PLACEHOLDER\n      Given PLACEHOLDER\n");
+            }
         }
         o
     }
@@ -115,6 +123,16 @@ impl FeatureSpec {
                 .unwrap_or_else(|e| {
                     panic!("harness: cannot parse rendered feature: {e}\n{text}")
                 });
+        let strip = |scs: &mut Vec<gherkin::Scenario>| {
+            scs.retain(|s| s.name != "PLACEHOLDER");
+            for s in scs {
+                s.steps.retain(|st| st.value != "PLACEHOLDER");
+            }
+        };
+        strip(&mut f.scenarios);
+        for r in &mut f.rules {
+            strip(&mut r.scenarios);
+        }
         // The rendered text must parse back to exactly the described
         // structure (guards against quirks of the Gherkin grammar).
         let shape = |scs: &[gherkin::Scenario]| {
